@@ -172,6 +172,39 @@ def bbox(env, g, nbox):
     env.claim(AND(*conds), "box membership by the closed limits, remainder last")
 
 
+@harness(P, quick=grid(g=["G3"], sym=[0, 2]), thorough=grid(g=["G1"], sym=[0, 1, 2]), max_paths=8000, time_budget_thorough=1800)
+def bbox3(env, g, sym):
+    """three boxes, two fixed and disjoint, one symbolic (position `sym` in the list): EVERY overlapping pair must be rejected."""
+    da, vals = mk_spec(env, g)
+    f, d = da.freq.values, da.dir.values
+    fixed = [dict(fmin=0.04, fmax=0.15, dmin=1.0, dmax=100.0), dict(fmin=0.18, fmax=0.5, dmin=170.0, dmax=280.0)]
+    L = {k: env.real(k, lo=0.001, hi=(1.0 if k[0] == "f" else 359.0)) for k in ("fmin", "fmax", "dmin", "dmax")}
+    env.assume(AND(L["fmin"] < L["fmax"], L["dmin"] < L["dmax"]))
+    boxes = list(fixed)
+    boxes.insert(sym, dict(L))
+    lims = boxes
+
+    def ov(a, b):
+        return AND(a["fmin"] < b["fmax"], b["fmin"] < a["fmax"], a["dmin"] < b["dmax"], b["dmin"] < a["dmax"])
+
+    overlap = OR(*[ov(lims[i], lims[j]) for i in range(3) for j in range(i + 1, 3)])
+    try:
+        out = da.spec.partition.bbox([dict(b) for b in boxes])
+    except ValueError:
+        env.claim(overlap, "ValueError only for overlapping boxes")
+        return
+    env.claim(NOT(overlap), "every overlapping pair of boxes is rejected (not only neighbours in the list)")
+    out = out.transpose("part", "freq", "dir")
+    env.claim(out.sizes["part"] == 4, "one partition per box plus the remainder")
+    tot_parts = sum(out.values[k] for k in range(4))
+    fs, ds = np.sort(f), np.sort(d)
+    exp = np.empty((len(fs), len(ds)), dtype=object)
+    for io, fi in enumerate(fs):
+        for jo, dj in enumerate(ds):
+            exp[io, jo] = vals[int(np.where(f == fi)[0][0]), int(np.where(d == dj)[0][0])]
+    env.equal(tot_parts, exp, "non-overlapping boxes and the remainder sum exactly to the input")
+
+
 @harness(P, quick=[dict(g="G2", omit="dmax"), dict(g="G2", omit="dmin"), dict(g="G1", omit="fmax"), dict(g="G1", omit="fmin")], thorough=[dict(g="U4", omit="dmax"), dict(g="G3", omit="fmin")])
 def bbox_omitted(env, g, omit):
     """an omitted limit defaults to the grid extreme on that side."""
